@@ -30,7 +30,7 @@ Inductive term := T (f : nat) (args : list term) | TI (z : Z).
 
 (** merge behaviour of a table: constructors are [MUnionId]; relations are functions to unit
     (modelled as [VInt 0] with [MOld]) *)
-Inductive mergefn := MUnionId | MAssertEq | MOld | MNew | MMin | MMax.
+Inductive mergefn := MUnionId | MAssertEq | MOld | MNew | MMin | MMax | MOr | MAnd.
 
 Record row := mkRow { rargs : list val; rret : val; rsub : bool }.
 Definition table := list row.
@@ -76,6 +76,8 @@ Definition merge_vals (m : mergefn) (cur new : val) : val * list (nat * nat) * b
   | MNew, _, _ => (new, [], false)
   | MMin, VInt a, VInt b => (VInt (Z.min a b), [], false)
   | MMax, VInt a, VInt b => (VInt (Z.max a b), [], false)
+  | MOr, VInt a, VInt b => (VInt (Z.lor a b), [], false)
+  | MAnd, VInt a, VInt b => (VInt (Z.land a b), [], false)
   | _, _, _ => (cur, [], negb (val_eqb cur new))
   end.
 
